@@ -17,6 +17,10 @@ SIM_PATH = '/simfs/ballots.blt'
 WALL_LIMIT = 6         # seconds per evaluation (reads take milliseconds) before the step budget is consulted
 
 
+BIG_FILE = 100_000         # from this size on a read is judged by CPU time instead of the short wall-clock limit
+CPU_LIMIT = 10.0           # CPU seconds allowed for reading one big file (the unchanged tree needs ~0.1-0.3 s)
+
+
 class Hang(BaseException):
     "wall-clock alarm inside one evaluation"
 
@@ -340,7 +344,10 @@ def evaluate(R, data, io_fault=None, entry='path', clock=False):
     p = None
     exc = None
     budget = parser_budget(len(data))
-    signal.setitimer(signal.ITIMER_REAL, WALL_LIMIT)
+    big = len(data) >= BIG_FILE
+    import time as _time        # pylint: disable=import-outside-toplevel
+    cpu0 = _time.process_time()
+    signal.setitimer(signal.ITIMER_REAL, CPU_LIMIT * 4 if big else WALL_LIMIT)
     try:
         with simfs.mounted(R.droop.profile, fs):
             if clock:
@@ -355,6 +362,11 @@ def evaluate(R, data, io_fault=None, entry='path', clock=False):
                      else R.droop.profile.ElectionProfile(data=text))
     except Hang:
         signal.setitimer(signal.ITIMER_REAL, 0)
+        if big:
+            res['outcome'] = 'hang'
+            res['viol'].append(dict(cls='hang', exc=None, frame=None, line_text='cpu-limit',
+                                    msg='reading %d bytes did not finish within %.0f s' % (len(data), CPU_LIMIT * 4)))
+            return res
         if clock:
             # second wall-clock alarm, this time under the step clock without the budget being reached: the
             # reader is stuck inside a single package line (e.g. catastrophic regex backtracking in C code)
@@ -383,6 +395,13 @@ def evaluate(R, data, io_fault=None, entry='path', clock=False):
     finally:
         signal.setitimer(signal.ITIMER_REAL, 0)
     res['closed'] = fs.stats['closes'] >= fs.stats['opens'] - fs.stats['open_raised']
+    res['cpu'] = _time.process_time() - cpu0
+    if big and res['cpu'] > CPU_LIMIT and not clock:
+        res['outcome'] = 'hang'
+        res['viol'].append(dict(cls='hang', exc=None, frame=None, line_text='cpu-limit',
+                                msg='reading %d bytes took %.0f CPU seconds (limit %.0f; the unchanged tree needs '
+                                    'well under one)' % (len(data), res['cpu'], CPU_LIMIT)))
+        return res
     if exc is not None:
         tb = exc.__traceback__
         last = None
@@ -605,6 +624,60 @@ def realfs_crosscheck(R, data, io, scratch):
     return simo == real, dict(sim=simo, real=real)
 
 
+SCALE_BYTES = 600_000      # size of the amplified files of the scale arm
+
+
+def scale_inputs(base, per_base=10):
+    "[(fault list, description)]: one token (with its separator) of the base replayed until the file has SCALE_BYTES"
+    spans = simfs.token_spans(base)
+    if not spans:
+        return []
+    n = len(base)
+    picks = []
+    step = max(1, len(spans) // per_base)
+    for i in range(0, len(spans), step):
+        picks.append(i)
+    out = []
+    for i in picks[:per_base]:
+        a, b = spans[i]
+        nxt = spans[i + 1][0] if i + 1 < len(spans) else n
+        l = max(1, nxt - a)
+        out.append(([['amplify', a, l, max(2, SCALE_BYTES // l)]], 'token %r x%d' % (base[a:b][:12], SCALE_BYTES // l)))
+    # a whole line replayed (many ballots / many option lines / many names)
+    lines = [m for m in re.finditer(rb'[^\n]*\n', base)]
+    for m in lines[1:len(lines):max(1, len(lines) // 4)][:4]:
+        l = m.end() - m.start()
+        if l > 1:
+            out.append(([['amplify', m.start(), l, max(2, SCALE_BYTES // l)]], 'line %r x%d' % (m.group()[:16], SCALE_BYTES // l)))
+    return out
+
+
+def work_scale(R, seed, base_name, base):
+    """scale arm: a stuck write replays one token or one line until the file is large; reading must stay (near) linear.
+
+    The verdict is a CPU-time bound with a margin of two orders of magnitude over the unchanged tree, not a step
+    count: super-linear work hidden inside C calls (string joins, regex backtracking) produces no trace events.
+    """
+    signal.signal(signal.SIGALRM, _alarm)
+    acc = new_acc()
+    for faults, desc in scale_inputs(base):
+        data = simfs.apply_faults(base, faults)
+        if acc['probes'].get('hangs', 0) >= 2:
+            acc['probes']['skipped_after_hangs'] = acc['probes'].get('skipped_after_hangs', 0) + 1
+            continue
+        res = evaluate(R, data, None, 'path')
+        if res['outcome'] == 'hang':
+            acc['probes']['hangs'] = acc['probes'].get('hangs', 0) + 1
+        _account(acc, ['amplify-scale'], None, res, True, len(data))
+        acc['probes']['scale_reads'] = acc['probes'].get('scale_reads', 0) + 1
+        acc['cpu_max'] = max(acc.get('cpu_max', 0.0), res.get('cpu', 0.0))
+        for v in res['viol']:
+            v = dict(v)
+            v['msg'] = '%s [%s]' % (v.get('msg'), desc)
+            acc['viol'].append(_viol_entry(v, base_name, base, faults, None, None, 'path', data))
+    return acc
+
+
 def work_faultfree(R, bases):
     "fault-free arm: every base unfaulted goes through the same oracle, through both entry points"
     signal.signal(signal.SIGALRM, _alarm)
@@ -656,6 +729,8 @@ def minimise(R, seed, v):
     from .minimise import ddmin     # pylint: disable=import-outside-toplevel
     signal.signal(signal.SIGALRM, _alarm)
     target = vclass(v)
+    if v['cls'] == 'hang':
+        return replay_object(R, seed, v)        # every test would cost the full time limit: keep the case as found
     base = base64.b64decode(v['base_b64'])
     aux = base64.b64decode(v['aux_b64']) if v.get('aux_b64') else b''
     io = v.get('io_fault')
